@@ -32,7 +32,7 @@ Definition inits : list init_args :=
     mkInit (lv 1 true) (lv 8 false) (Some "projA") (Some ("rtA", "json")) false ].
 
 Definition script_ok (i : init_args) (ops : list op) : bool :=
-  let c := mk sweep_fs i ops (Err EOther) in
+  let c := mk sweep_fs i ops (Err EOther) [] in
   spec_ok sweep_fs i ops "INVOKE_" (model_out c) &&
   wf_script ops.
 
